@@ -2,6 +2,7 @@ package main
 
 import (
 	"flag"
+	"go/types"
 	"fmt"
 	"os"
 	"path/filepath"
@@ -12,6 +13,7 @@ import (
 
 func loadSpecs(w *World, specDir string) (*SpecDB, error) {
 	db := newSpecDB()
+	registerHeaps(w)
 	// spec files of /verif first (prelude, trusted library contracts)
 	if specDir != "" {
 		files, _ := filepath.Glob(filepath.Join(specDir, "*.spec"))
@@ -136,5 +138,42 @@ func main() {
 	default:
 		fmt.Fprintln(os.Stderr, "unknown command")
 		os.Exit(2)
+	}
+}
+
+// registerHeaps makes the heap arrays of every struct type declared in /repo (and the
+// common element heaps) known up front, so specification functions can name them.
+func registerHeaps(w *World) {
+	for path, p := range w.Pkgs {
+		if !isRepoPkg(path) {
+			continue
+		}
+		sc := p.Types.Scope()
+		for _, n := range sc.Names() {
+			tn, ok := sc.Lookup(n).(*types.TypeName)
+			if !ok {
+				continue
+			}
+			st, ok := tn.Type().Underlying().(*types.Struct)
+			if !ok || isTimeTime(tn.Type()) {
+				continue
+			}
+			if named, ok := tn.Type().(*types.Named); ok && named.TypeParams().Len() > 0 {
+				continue
+			}
+			for i := 0; i < st.NumFields(); i++ {
+				func() {
+					defer func() { recover() }()
+					k, s := fieldHeapKey(tn.Type(), i)
+					heapSorts[k] = s
+				}()
+			}
+		}
+	}
+	for _, s := range []string{"Int", "Bool", sortStr, sortIface, sortSlice, sortFn} {
+		k, hs := elemHeapKey(s)
+		heapSorts[k] = hs
+		k, hs = cellHeapKey(s)
+		heapSorts[k] = hs
 	}
 }
